@@ -35,8 +35,9 @@ def opsum_offline_discrete(ix, rep, mon, rule='R-OPSUM'):
                 rep.undecided(rule, f.module.rel, f.qual, slot, 'window arithmetic is not summarised (%s)' % nf[1][:60], f.node.lineno)
             continue
         if nf[0] == 'unknown':
-            raise AnalysisError('%s (%s): handler of %s is no longer in a summarised idiom (%s); it was decided on the pinned '
-                                'tree' % (f.where, f.qual, nc.name, nf[1]))
+            rep.error('%s (%s): handler of %s is no longer in a summarised idiom (%s); it was decided on the pinned tree'
+                      % (f.where, f.qual, nc.name, nf[1]))
+            continue
         decided += 1
         if nf != want:
             rep.fail(rule, f.module.rel, f.qual, slot, 'operator %s: %s  [handler: %s | reference: %s]'
